@@ -33,7 +33,7 @@ def run(ctx):
         for h in mm["history"]:
             n, readable = (mm["n"], True) if h["f"] == "a" else (2, mm["bReadable"])
             lo, hi = win(h["l"], n, readable)
-            hist.append({"f": h["f"], "l": h["l"], "lo": lo, "hi": hi})
+            hist.append({"f": h["f"], "l": h["l"], "c": h.get("c", "head"), "lo": lo, "hi": hi})
             reads[h["f"]] = (reads[h["f"]] + 1) if not readable else 1
         line = "@E " + json.dumps({"n": mm["n"], "bReadable": mm["bReadable"], "hist": hist, "readsA": reads["a"], "readsB": reads["b"]})
         p = subprocess.run([vh, "reporter-seq-replay"], input=line + "\n", stdout=subprocess.PIPE, stderr=subprocess.PIPE, text=True)
@@ -112,10 +112,13 @@ def run(ctx):
 
     # (3) one Reporter, many diagnostics: the line cache (ReporterCache.tla) - every history of <= 3 (quick) / 4 (thorough) reports
     rcfg = ("SPECIFICATION Spec\nCONSTANTS\n  MaxLen = 5\n  MaxReports = %d\n  Deviations = %s\n  Emit = %s\n"
-            "INVARIANTS Stateless ReadOnce Retry CacheFaithful EmitInv\nCHECK_DEADLOCK FALSE\n")
+            "INVARIANTS Stateless TruncByOwnColumn ReadOnce Retry CacheFaithful EmitInv\nCHECK_DEADLOCK FALSE\n")
     r = ctx.tlc("ReporterCache", rcfg % (2, '{"PrefixCache"}', "FALSE"), label="c19_cache_dev", allow_violation=True, count=False, collect_emit=False)
     if r["violated"] is None:
         raise vlib.ToolError("deviation PrefixCache violates nothing in ReporterCache: vacuous")
+    r = ctx.tlc("ReporterCache", rcfg % (2, '{"TruncCache"}', "FALSE"), label="c19_cache_dev2", allow_violation=True, count=False, collect_emit=False)
+    if r["violated"] != "TruncByOwnColumn":
+        raise vlib.ToolError("deviation TruncCache does not violate TruncByOwnColumn: vacuous")
     r = ctx.tlc("ReporterCache", rcfg % (4 if thorough else 3, "{}", "TRUE"), label="c19_cache", collect_emit=False, timeout=2400)
     with open(r["out"]) as f:
         p = subprocess.run([vh, "reporter-seq-replay"], stdin=f, stdout=subprocess.PIPE, stderr=subprocess.PIPE, text=True)
